@@ -11,6 +11,8 @@ NOT_BUILT = "machinery for this property is not built yet in this tree (see DESI
 
 
 def main():
+    # only checks vetted by the coordinator on the unchanged tree are claimed (claimed.txt, one id per line)
+    claimed = set(l.strip() for l in open(os.path.join(VERIF, "claimed.txt")) if l.strip() and not l.startswith("#"))
     props = [json.loads(l) for l in open(os.path.join(VERIF, "properties.jsonl"))]
     checks = []
     na = []
@@ -22,7 +24,7 @@ def main():
         if os.path.isfile(f):
             mod = importlib.import_module("checks." + pid.lower())
             m = getattr(mod, "MANIFEST", None)
-        if not m:
+        if not m or pid not in claimed:
             na.append({"property_id": pid, "reason": NOT_BUILT})
             continue
         if m.get("not_applicable"):
